@@ -147,7 +147,7 @@ pub fn blocks() -> Vec<BlockView> {
     let ps = proposal_ids();
     let mut out = vec![];
     let mut salt = 0usize;
-    for ntx in 1..=3usize {
+    for ntx in 0..=3usize {
         for np in 0..=2usize {
             for nu in 0..=2usize {
                 for ext in [None, Some(Bytes::new()), Some(Bytes::from(vec![5u8; 1])), Some(Bytes::from(vec![7u8; 32])), Some(Bytes::from(vec![9u8; 96]))] {
